@@ -7,8 +7,13 @@ namespace Pb
 open Spec
 
 /-- decoding `b` into `m` succeeds with `R`, for every adequate fuel (`fuelFor b = b.length + 2`) -/
-def DecOK (S : Schema) (mi : Nat) (depth : Int) (dis : Bool) (m : Msg) (b : List Byte) (R : Msg) : Prop :=
-  ∀ fuel, b.length + 2 ≤ fuel → decMsg fuel S mi m b depth dis = .ok R
+def DecTo (S : Schema) (mi : Nat) (depth : Int) (dis : Bool) (m : Msg) (b : List Byte)
+    (r : Except DErr Msg) : Prop :=
+  ∀ fuel, b.length + 2 ≤ fuel → decMsg fuel S mi m b depth dis = r
+
+/-- decoding `b` into `m` succeeds with `R`, for every adequate fuel -/
+abbrev DecOK (S : Schema) (mi : Nat) (depth : Int) (dis : Bool) (m : Msg) (b : List Byte) (R : Msg) : Prop :=
+  DecTo S mi depth dis m b (.ok R)
 
 theorem DecOK_nil (S : Schema) (mi : Nat) (depth : Int) (dis : Bool) (m : Msg) : DecOK S mi depth dis m [] m := by
   intro fuel hf
@@ -57,16 +62,16 @@ theorem decMsg_unknown {S : Schema} {mi : Nat} {m : Msg} {b : List Byte} {num wt
     have : ¬ num > maxValidNumber := by omega
     simp only [this, if_false, hfind, hlen]
 
-/-- chaining: if the rest decodes to `R` from the updated message, the whole buffer does -/
-theorem DecOK_known {S : Schema} {mi : Nat} {m m' R : Msg} {f : Field} {wt : Nat} {payload rest : List Byte}
-    {depth : Int} {dis : Bool}
+/-- chaining: if the rest decodes to `r` from the updated message, the whole buffer does -/
+theorem DecTo_known {S : Schema} {mi : Nat} {m m' : Msg} {r : Except DErr Msg} {f : Field} {wt : Nat}
+    {payload rest : List Byte} {depth : Int} {dis : Bool}
     (h1 : 1 ≤ f.num) (h2 : f.num ≤ maxValidNumber) (hwt : wt < 8)
     (hfind : (S.msg mi).find f.num = some f)
     (hfield : ∀ fuel, (tagBytes f.num wt ++ (payload ++ rest)).length + 1 ≤ fuel →
       decField fuel S mi m f wt (payload ++ rest) depth dis = .ok m')
     (hlen : consumeFieldValue f.num wt (payload ++ rest) = .ok payload.length)
-    (hrest : DecOK S mi depth dis m' rest R) :
-    DecOK S mi depth dis m (tagBytes f.num wt ++ (payload ++ rest)) R := by
+    (hrest : DecTo S mi depth dis m' rest r) :
+    DecTo S mi depth dis m (tagBytes f.num wt ++ (payload ++ rest)) r := by
   intro fuel hf
   cases fuel with
   | zero => omega
@@ -75,6 +80,40 @@ theorem DecOK_known {S : Schema} {mi : Nat} {m m' R : Msg} {f : Field} {wt : Nat
     apply hrest
     have := tagBytes_pos f.num wt
     simp only [List.length_append] at hf; omega
+
+theorem DecOK_known {S : Schema} {mi : Nat} {m m' R : Msg} {f : Field} {wt : Nat} {payload rest : List Byte}
+    {depth : Int} {dis : Bool}
+    (h1 : 1 ≤ f.num) (h2 : f.num ≤ maxValidNumber) (hwt : wt < 8)
+    (hfind : (S.msg mi).find f.num = some f)
+    (hfield : ∀ fuel, (tagBytes f.num wt ++ (payload ++ rest)).length + 1 ≤ fuel →
+      decField fuel S mi m f wt (payload ++ rest) depth dis = .ok m')
+    (hlen : consumeFieldValue f.num wt (payload ++ rest) = .ok payload.length)
+    (hrest : DecOK S mi depth dis m' rest R) :
+    DecOK S mi depth dis m (tagBytes f.num wt ++ (payload ++ rest)) R :=
+  DecTo_known h1 h2 hwt hfind hfield hlen hrest
+
+/-- a record of a declared field that `decField` rejects aborts the decode with that error -/
+theorem DecTo_known_err {S : Schema} {mi : Nat} {m : Msg} {e : DErr} {f : Field} {wt : Nat}
+    {val : List Byte} {depth : Int} {dis : Bool}
+    (h1 : 1 ≤ f.num) (h2 : f.num ≤ maxValidNumber) (hwt : wt < 8)
+    (hfind : (S.msg mi).find f.num = some f)
+    (hfield : ∀ fuel, (tagBytes f.num wt ++ val).length + 1 ≤ fuel →
+      decField fuel S mi m f wt val depth dis = .err e) :
+    DecTo S mi depth dis m (tagBytes f.num wt ++ val) (.error e) := by
+  intro fuel hf
+  cases fuel with
+  | zero => omega
+  | succ fu =>
+    have hmax : f.num < 2 ^ 31 := by unfold maxValidNumber at h2; omega
+    have htag := decTag_enc h1 hmax hwt val
+    conv => lhs; unfold decMsg
+    split
+    · rename_i heq; exact absurd heq (tagBytes_ne_nil _ _ _)
+    · unfold tagBytes
+      rw [htag]
+      simp only
+      have : ¬ f.num > maxValidNumber := by omega
+      simp only [this, if_false, hfind, List.drop_left', hfield fu (by omega)]
 
 theorem unk_loop (S : Schema) (mi : Nat) (depth : Int) (dis : Bool) (g : Int) (hg : g ≤ defaultRecursionLimit) :
     ∀ (fuel0 : Nat) (b : List Byte) (fs : Fields) (u : List Byte), unkOKAux (S.msg mi) g fuel0 b = true →
